@@ -3,10 +3,11 @@ From CRNG Require Import Base.Bytes Model.Params Proofs.ParamsProofs.
 Local Open Scope Z_scope.
 
 (* The accepted-then-crash class.  For every aggregation (any regex flag, interval and wait written as
-   digits) and every carbon route (any number of destinations, each with any flush / reconn / connbuf / iobuf /
-   spool... values written as digits) that the constructors accept, every later operation that depends on
+   digits), every carbon route (any number of destinations, each with any flush / reconn / connbuf / iobuf /
+   spool... values written as digits) and every grafanaNet route (any concurrency / bufSize / flushMaxNum /
+   flushMaxWait / timeout / orgId / errBackoffMin written as digits) that the constructors accept, every later operation that depends on
    those values — the aligned ticker's modulo, the three time.NewTicker calls, the buffered writer's and the
-   channels' allocations, the hash ring's modulo — runs with a value for which it does not panic.
+   channels' allocations, the hash ring's modulo, grafanaNet's shard modulo and per-shard buffers — runs with a value for which it does not panic.
    Durations are computed with wrapping int64 arithmetic, as in Go. *)
 Theorem C14_accepted_parameters_cannot_crash_later :
   forall p, accepts p = true -> runs_ok p = true.
